@@ -14,11 +14,11 @@ use crate::methods::{CrossAbove, CrossUnder, SMA};
 ///
 /// # 3 values
 ///
+/// * `source` value
 /// * `upper bound`
 ///
 /// Range of values is the same as the range of the `source` values.
 ///
-/// * `source` value
 /// * `lower bound`
 ///
 /// Range of values is the same as the range of the `source` values.
